@@ -41,12 +41,12 @@ func leafOf(n *shape.Node) *shape.Node {
 func featurePoint3(t *rapid.T, leaf *shape.Node, i int, S float64) ([3]float64, string) {
 	l := func(s string) string { return fmt.Sprintf("%s%d", s, i) }
 	P := leaf.P
-	phi := rapid.Float64Range(-math.Pi, math.Pi).Draw(t, l("phi"))
+	phi := g.F(-math.Pi, math.Pi).Draw(t, l("phi"))
 	spin := func(rho, z float64) [3]float64 { return [3]float64{rho * math.Cos(phi), rho * math.Sin(phi), z} }
 	off := func() (float64, float64) {
 		// offset from a feature: tiny to large, any direction
 		d := g.LogUniform(t, l("fd"), 1e-6, 2) * S
-		a := rapid.Float64Range(-math.Pi, math.Pi).Draw(t, l("fa"))
+		a := g.F(-math.Pi, math.Pi).Draw(t, l("fa"))
 		if rapid.IntRange(0, 3).Draw(t, l("fax")) == 0 {
 			a = float64(rapid.IntRange(-4, 4).Draw(t, l("faq"))) * math.Pi / 4
 		}
@@ -124,11 +124,11 @@ func TestExact3(t *testing.T) {
 			class := "generic"
 			switch rapid.IntRange(0, 5).Draw(t, fmt.Sprintf("k%d", i)) {
 			case 0, 1:
-				p = [3]float64{c.X + rapid.Float64Range(-1.5, 1.5).Draw(t, fmt.Sprintf("x%d", i))*h.X, c.Y + rapid.Float64Range(-1.5, 1.5).Draw(t, fmt.Sprintf("y%d", i))*h.Y, c.Z + rapid.Float64Range(-1.5, 1.5).Draw(t, fmt.Sprintf("z%d", i))*h.Z}
+				p = [3]float64{c.X + g.F(-1.5, 1.5).Draw(t, fmt.Sprintf("x%d", i))*h.X, c.Y + g.F(-1.5, 1.5).Draw(t, fmt.Sprintf("y%d", i))*h.Y, c.Z + g.F(-1.5, 1.5).Draw(t, fmt.Sprintf("z%d", i))*h.Z}
 			case 2:
 				class = "far"
 				k := g.LogUniform(t, fmt.Sprintf("far%d", i), 10, 1000)
-				p = [3]float64{c.X + rapid.Float64Range(-1, 1).Draw(t, fmt.Sprintf("x%d", i))*k*size, c.Y + rapid.Float64Range(-1, 1).Draw(t, fmt.Sprintf("y%d", i))*k*size, c.Z + rapid.Float64Range(-1, 1).Draw(t, fmt.Sprintf("z%d", i))*k*size}
+				p = [3]float64{c.X + g.F(-1, 1).Draw(t, fmt.Sprintf("x%d", i))*k*size, c.Y + g.F(-1, 1).Draw(t, fmt.Sprintf("y%d", i))*k*size, c.Z + g.F(-1, 1).Draw(t, fmt.Sprintf("z%d", i))*k*size}
 			default:
 				if n == leaf && leaf.Dim() == 3 {
 					p, class = featurePoint3(t, leaf, i, S)
@@ -136,7 +136,7 @@ func TestExact3(t *testing.T) {
 					// feature point of the leaf mapped forward is not available analytically for wrappers: use axis-aligned slices through the box centre
 					p = [3]float64{c.X, c.Y, c.Z}
 					a := rapid.IntRange(0, 2).Draw(t, fmt.Sprintf("ax%d", i))
-					p[a] += rapid.Float64Range(-2, 2).Draw(t, fmt.Sprintf("x%d", i)) * []float64{h.X, h.Y, h.Z}[a]
+					p[a] += g.F(-2, 2).Draw(t, fmt.Sprintf("x%d", i)) * []float64{h.X, h.Y, h.Z}[a]
 					class = "axis-line"
 				}
 			}
@@ -192,20 +192,20 @@ func TestExact2(t *testing.T) {
 			class := "generic"
 			switch rapid.IntRange(0, 4).Draw(t, fmt.Sprintf("k%d", i)) {
 			case 0, 1:
-				p = [2]float64{c.X + rapid.Float64Range(-1.5, 1.5).Draw(t, fmt.Sprintf("x%d", i))*h.X, c.Y + rapid.Float64Range(-1.5, 1.5).Draw(t, fmt.Sprintf("y%d", i))*h.Y}
+				p = [2]float64{c.X + g.F(-1.5, 1.5).Draw(t, fmt.Sprintf("x%d", i))*h.X, c.Y + g.F(-1.5, 1.5).Draw(t, fmt.Sprintf("y%d", i))*h.Y}
 			case 2:
 				class = "far"
 				k := g.LogUniform(t, fmt.Sprintf("far%d", i), 10, 1000)
-				p = [2]float64{c.X + rapid.Float64Range(-1, 1).Draw(t, fmt.Sprintf("x%d", i))*k*size, c.Y + rapid.Float64Range(-1, 1).Draw(t, fmt.Sprintf("y%d", i))*k*size}
+				p = [2]float64{c.X + g.F(-1, 1).Draw(t, fmt.Sprintf("x%d", i))*k*size, c.Y + g.F(-1, 1).Draw(t, fmt.Sprintf("y%d", i))*k*size}
 			default:
 				class = "axis-line"
 				p = [2]float64{c.X, c.Y}
 				a := rapid.IntRange(0, 1).Draw(t, fmt.Sprintf("ax%d", i))
-				p[a] += rapid.Float64Range(-2, 2).Draw(t, fmt.Sprintf("x%d", i)) * []float64{h.X, h.Y}[a]
+				p[a] += g.F(-2, 2).Draw(t, fmt.Sprintf("x%d", i)) * []float64{h.X, h.Y}[a]
 				if n == leaf && leaf.Op == "box2" && rapid.Bool().Draw(t, fmt.Sprintf("diag%d", i)) {
 					// the diagonal of the inset box: boundary between the two interior branches
 					class = "box2-diagonal"
-					u := rapid.Float64Range(-1.5, 1.5).Draw(t, fmt.Sprintf("u%d", i))
+					u := g.F(-1.5, 1.5).Draw(t, fmt.Sprintf("u%d", i))
 					hx, hy := leaf.P[0]/2-leaf.P[2], leaf.P[1]/2-leaf.P[2]
 					m := math.Min(hx, hy)
 					p = [2]float64{(hx - m) + u*m, (hy - m) + u*m}
@@ -316,7 +316,7 @@ func TestLipschitz3(t *testing.T) {
 					p[a] = rapid.SampledFrom(pool).Draw(t, l+".pool")
 					onSeam = true
 				} else {
-					p[a] = cc[a] + rapid.Float64Range(-1.4, 1.4).Draw(t, l)*hh[a]
+					p[a] = cc[a] + g.F(-1.4, 1.4).Draw(t, l)*hh[a]
 				}
 			}
 			// q: very close, close, or anywhere
@@ -329,7 +329,7 @@ func TestLipschitz3(t *testing.T) {
 			default:
 				r = g.LogUniform(t, fmt.Sprintf("qr%d", i), 1, 10) * S
 			}
-			d := [3]float64{rapid.Float64Range(-1, 1).Draw(t, fmt.Sprintf("qx%d", i)), rapid.Float64Range(-1, 1).Draw(t, fmt.Sprintf("qy%d", i)), rapid.Float64Range(-1, 1).Draw(t, fmt.Sprintf("qz%d", i))}
+			d := [3]float64{g.F(-1, 1).Draw(t, fmt.Sprintf("qx%d", i)), g.F(-1, 1).Draw(t, fmt.Sprintf("qy%d", i)), g.F(-1, 1).Draw(t, fmt.Sprintf("qz%d", i))}
 			if onSeam && rapid.Bool().Draw(t, fmt.Sprintf("qax%d", i)) {
 				// step across the seam along one axis
 				a := rapid.IntRange(0, 2).Draw(t, fmt.Sprintf("qa%d", i))
@@ -357,7 +357,7 @@ func TestLipschitz3(t *testing.T) {
 			}
 			// empty ball: no sign change inside the open ball of radius |f(p)| about p
 			if math.Abs(fp) > 1e-9*scale {
-				rr := math.Abs(fp) * (1 - 1e-6) * rapid.Float64Range(0, 1).Draw(t, fmt.Sprintf("br%d", i))
+				rr := math.Abs(fp) * (1 - 1e-6) * g.F(0, 1).Draw(t, fmt.Sprintf("br%d", i))
 				var w [3]float64
 				for a := 0; a < 3; a++ {
 					w[a] = p[a] + d[a]/dl*rr
@@ -408,7 +408,7 @@ func TestLipschitz2(t *testing.T) {
 					p[a] = rapid.SampledFrom(pool).Draw(t, l+".pool")
 					onSeam = true
 				} else {
-					p[a] = cc[a] + rapid.Float64Range(-1.4, 1.4).Draw(t, l)*hh[a]
+					p[a] = cc[a] + g.F(-1.4, 1.4).Draw(t, l)*hh[a]
 				}
 			}
 			var r float64
@@ -420,7 +420,7 @@ func TestLipschitz2(t *testing.T) {
 			default:
 				r = g.LogUniform(t, fmt.Sprintf("qr%d", i), 1, 10) * S
 			}
-			a := rapid.Float64Range(-math.Pi, math.Pi).Draw(t, fmt.Sprintf("qa%d", i))
+			a := g.F(-math.Pi, math.Pi).Draw(t, fmt.Sprintf("qa%d", i))
 			if onSeam && rapid.Bool().Draw(t, fmt.Sprintf("qax%d", i)) {
 				a = float64(rapid.IntRange(-2, 2).Draw(t, fmt.Sprintf("qq%d", i))) * math.Pi / 2
 			}
@@ -435,7 +435,7 @@ func TestLipschitz2(t *testing.T) {
 				rec.Violation(t, key, "%s: |f(p)-f(q)| = |%v - %v| = %v > |p-q| = %v for p=%v q=%v; %s", n, fp, fq, math.Abs(fp-fq), dist, p, q, detail)
 			}
 			if math.Abs(fp) > 1e-9*scale {
-				rr := math.Abs(fp) * (1 - 1e-6) * rapid.Float64Range(0, 1).Draw(t, fmt.Sprintf("br%d", i))
+				rr := math.Abs(fp) * (1 - 1e-6) * g.F(0, 1).Draw(t, fmt.Sprintf("br%d", i))
 				w := [3]float64{p[0] + rr*math.Cos(a), p[1] + rr*math.Sin(a), 0}
 				if fw := ev2(w); (fw < 0) != (fp < 0) && math.Abs(fw) > 1e-9*scale {
 					key, detail := lipCulprit(b, p, w, scale)
